@@ -56,16 +56,19 @@ Lemma g_String vi : robust vi -> robust (packet_String_ReadFrom_io vi).
 Proof. intros Hv. unfold packet_String_ReadFrom_io. cbv zeta. apply robust_bind; [exact Hv|]. rbg. Qed.
 Lemma g_ByteArray vi b sp : robust vi -> robust (packet_ByteArray_ReadFrom_io vi b sp).
 Proof. intros Hv. unfold packet_ByteArray_ReadFrom_io. cbv zeta. apply robust_bind; [exact Hv|]. rbg. Qed.
-Lemma g_BitSet_loop1 : forall k i b n, robust (packet_BitSet_ReadFrom_io_loop1 k i b n).
-Proof.
-  induction k as [|k IH]; intros i b n; cbn [packet_BitSet_ReadFrom_io_loop1]; [constructor|].
-  apply robust_bind; [apply g_Long|]. intros [v n2]. cbv zeta. apply IH.
-Qed.
-Lemma g_BitSet_loop2 : forall k i b n, robust (packet_BitSet_ReadFrom_io_loop2 k i b n).
-Proof.
-  induction k as [|k IH]; intros i b n; cbn [packet_BitSet_ReadFrom_io_loop2]; [constructor|].
-  apply robust_bind; [apply g_Long|]. intros [v n2]. cbv zeta. apply IH.
-Qed.
+(* the loops of BitSet.ReadFrom, whatever their arguments and growth steps are: every iteration is tests, pure lets
+   and ONE Long.ReadFrom *)
+Ltac loop_step IH :=
+  repeat first
+    [ progress cbv zeta
+    | match goal with |- robust (if ?c then _ else _) => destruct c end
+    | apply robust_bind; [apply g_Long|intros [? ?]]
+    | apply IH
+    | constructor ].
+Lemma g_BitSet_loop1 : forall k L i b sp n, robust (packet_BitSet_ReadFrom_io_loop1 L k i b sp n).
+Proof. induction k as [|k IH]; intros; cbn [packet_BitSet_ReadFrom_io_loop1]; [constructor|]. loop_step IH. Qed.
+Lemma g_BitSet_loop2 : forall k L i b sp n, robust (packet_BitSet_ReadFrom_io_loop2 L k i b sp n).
+Proof. induction k as [|k IH]; intros; cbn [packet_BitSet_ReadFrom_io_loop2]; [constructor|]. loop_step IH. Qed.
 Lemma g_BitSet vi b sp : robust vi -> robust (packet_BitSet_ReadFrom_io vi b sp).
 Proof.
   intros Hv. unfold packet_BitSet_ReadFrom_io. cbv zeta. apply robust_bind; [exact Hv|]. intros [v n1].
